@@ -416,10 +416,62 @@ fn run_type(ty: &str, n: usize, s: &mut Sink) {
     }
 }
 
+/// Ranges that have been used as iterators before being converted: a `RangeInclusive` keeps its
+/// bounds (and a private "exhausted" flag) while it is consumed from either end. Whatever bounds
+/// it stores at the moment of the conversion - read through `start()` / `end()` right before -
+/// the conversion must treat like the same pair through any other path ("return exactly the
+/// stored bounds"): Ok(TwoSided(start, end)) iff start <= end, else InvalidBounds. Every range
+/// a..=b over a small box, after every number of `next()` and `next_back()` calls up to
+/// exhaustion and beyond.
+fn consumed_ranges(s: &mut Sink) {
+    macro_rules! go {
+        ($t:ty, $lo:expr, $hi:expr) => {
+            for a in $lo..=$hi {
+                for b in $lo..=$hi {
+                    let len = if b >= a { (b - a) as usize + 1 } else { 0 };
+                    for front in 0..=len + 1 {
+                        for back in 0..=(len + 1 - front.min(len + 1)) {
+                            let mut r: std::ops::RangeInclusive<$t> = a..=b;
+                            for _ in 0..front {
+                                let _ = r.next();
+                            }
+                            for _ in 0..back {
+                                let _ = r.next_back();
+                            }
+                            let (st, en) = (*r.start(), *r.end());
+                            s.evals += 1;
+                            s.calls += 1;
+                            let got = Interval::<$t>::try_from(r.clone());
+                            let via_new = Interval::new(st, en);
+                            let ok = match (&got, &via_new) {
+                                (Ok(x), Ok(y)) => x == y && *x == Interval::TwoSided(st, en),
+                                (Err(x), Err(y)) => format!("{x:?}") == format!("{y:?}"),
+                                _ => false,
+                            };
+                            s.outcome(&("consumed-range", stringify!($t), got.is_ok(), front >= len, st <= en));
+                            if !ok {
+                                s.violation(format!("consumed-range/{}", if got.is_ok() { "wrong-interval" } else { "stored-bounds-rejected" }), format!("{}: ({a}..={b}) after {front} x next() and {back} x next_back() stores {st}..={en}: try_from = {got:?}, Interval::new({st}, {en}) = {via_new:?}", stringify!($t)), json!({"type":"consumed-range","elem":stringify!($t),"a":a,"b":b,"front":front,"back":back}));
+                            }
+                        }
+                    }
+                }
+            }
+        };
+    }
+    go!(i32, -2, 3);
+    go!(u8, 0, 4);
+    go!(i64, -1, 2);
+    go!(usize, 0, 3);
+}
+
 const TYPES: [&str; 17] = ["i32", "i8", "i16", "i64", "i128", "isize", "u8", "u16", "u32", "u64", "u128", "usize", "f64", "f32", "char", "&str", "String"];
 
 fn replay_case(case: &Value, s: &mut Sink) {
     // a type's whole enumeration is milliseconds: replay re-runs it and reports
+    if case["type"] == "consumed-range" {
+        consumed_ranges(s);
+        return;
+    }
     run_type(case["type"].as_str().unwrap_or(""), 9, s);
 }
 
@@ -436,11 +488,12 @@ fn main() {
             run_type(ty, 11, &mut s);
         }
     }
+    consumed_ranges(&mut s);
     s.sample(json!({"type":"i32","path":"TupleTT","lo":5,"hi":2,"expect":"Err(InvalidBounds) (inverted pair)"}));
     s.sample(json!({"type":"f64","path":"New","lo":"-0.0","hi":"+0.0","expect":"Ok, degenerate, width 0, equal to [+0.0,-0.0]"}));
     s.sample(json!({"type":"u8","path":"NewLower","hi":3,"expect":"low_u()=0, into (u8,u8) = (0, 60), width None"}));
     s.sample(json!({"type":"String","path":"OptNoneNone","expect":"Err(EmptyInterval)"}));
-    rep.rule = "every ordered pair of chain values (all positions of a 9-chain incl. extremes: ordered, equal, inverted) x 4 two-sided construction paths + every value x 3+3 one-sided paths + (None,None), then every accessor/predicate/conversion on every constructed interval, the full equality/hash table and clone_from over all ordered (source, destination) pairs plus the Vec / slice forms, for 12 integer types, f64/f32 (+-0 pair, subnormal, infinities), char, &str, String; distinct by (path, kind predicates, degenerate)".into();
+    rep.rule = "every ordered pair of chain values (all positions of a 9-chain incl. extremes: ordered, equal, inverted) x 4 two-sided construction paths + every value x 3+3 one-sided paths + (None,None), then every accessor/predicate/conversion on every constructed interval, the full equality/hash table and clone_from over all ordered (source, destination) pairs plus the Vec / slice forms, for 12 integer types, f64/f32 (+-0 pair, subnormal, infinities), char, &str, String; plus every inclusive range over a small integer box after every number of next() / next_back() calls up to exhaustion and beyond (the conversion must treat the bounds the range stores then like the same pair through Interval::new); distinct by (path, kind predicates, degenerate)".into();
     rep.assume("NaN bounds are outside the property's quantifier");
     rep.assume("equal intervals must hash equally; distinct hashes for distinct kinds are counted but not demanded");
     rep.require(s.distinct() >= 12, "fewer than 12 distinct construction classes: vacuous");
